@@ -627,8 +627,11 @@ class Generator:
         body = self.rw_ptr_swap(body, spec)
         body = self.rw_ref_wild(body)
         body = self.rw_unsafe_stubs(body, spec)
-        for k, fname, lines in spec.calls:
+        # descending k: replacing an earlier occurrence must not renumber the later ones
+        for k, fname, lines in sorted(spec.calls, key=lambda c: -c[0]):
             body = self.apply_call(body, k, fname, lines, spec)
+        if spec.calls or spec.unsafe_stub:
+            body = self.relex(text_of(body), body)
         for k, pat, lines in spec.replace:
             body = self.apply_replace(body, k, pat, lines, spec)
         # hints are anchored on the original statements, so they go in before loops are desugared
